@@ -273,6 +273,3 @@ def replay(run, rec):
     else:
         print("pack-phase replay: rebuild the packet from witness 'values' with the printed source")
         print(w["source"])
-    run.distinct.update(["replay-a", "replay-b"])
-    for k in REQUIRED:
-        run.counters[k] += 1
